@@ -12,6 +12,17 @@ BASE_NOTE = (
 
 # property -> (category, text, technique, design_ref, extra note)
 CLAIMS = {
+    "C01": (
+        "proof",
+        "One relational obligation per sync/async pair found mechanically in liquid/** (79 pairs incl. nested traversal functions): the async body after await-erasure IS the sync body (57 pairs), "
+        "or is congruent to it modulo a fixed list of justified rewrite rules (delegation to the sync method, generator vs list consumed at once, run_in_executor(None,f,*a)==f(*a), keyword==positional argument, "
+        "single-use temporaries, is_undefined==isinstance, pruning of tests that are constant under the stated preconditions, order of mutually exclusive if/elif arms, and the lemmas L-strlit and A-elsif). "
+        "Each rule's structural precondition (no built-in defines filter_async/__getitem_async__, macros namespace holds Macro objects, shapes of is_undefined / StringLiteral.evaluate / ConditionalBlockNode / Node.render, children() results only iterated) is itself an obligation. "
+        "Callees are paired by name, so the induction hypothesis is the callee's own obligation (partial correctness). A bounded relational check renders/loads/analyses a template family both ways.",
+        "relational contracts discharged by await-erasure congruence modulo justified rewrite rules (pyvc-flow) + bounded relational contract check",
+        "DESIGN.md section 4 C01",
+        "Single-task execution; JSON-like data; built-in loaders whose sync uptodate callables return bool.",
+    ),
     "C02": (
         "other",
         "raises-set contracts, for all argument values of the tagged union (JSON-like data incl. inf/nan floats, huge ints, arbitrary strings), on the conversion helpers (to_int, int_arg, num_arg, decimal_arg), "
